@@ -757,8 +757,8 @@ R.mutant("checkout-reconnects-before-pool-invalidate", POOL,
                           "                    pool._invalidate(fairy, e, _checkin=False)\n")), "C26-R7")
 
 # ---------------------------------------------------------------------- C26-R8 (= C25-R7: no slot is lost on an exceptional exit)
-# The rule body and its full battery live in c25.py (`every_exit_hands_back`, AFTER_FIX for the inputs that need the fixed
-# shape of checkin / _finalize_fairy: both keys fire on today's tree).  Here: fault-path inputs that apply today.
+# The rule body and its full battery live in c25.py (`every_exit_hands_back`, AFTER_FIX = the inputs on the fixed
+# shape of checkin / _finalize_fairy).  Here: fault-path inputs on the other family members.
 R.mutant("r8-fairy-checkout-exhausted-only-soft-invalidates", POOL,
          sub("        fairy.invalidate()\n        raise exc.InvalidRequestError", "        fairy.invalidate(soft=True)\n        raise exc.InvalidRequestError"),
          "C26-R8")
